@@ -35,8 +35,16 @@ UFmtDemands(e) ==
     <<"C05.back_urn",   fitsU => \A i \in 7..12 : e.back[i] = good>>
   >>
 
+\* specification growth: the cause of a refusal names the first byte that is not a hexadecimal digit
+\* (plain form; all hyphens in place)
+FirstBadDigit(b, up) ==
+  LET bad == {i \in 1..32 : HexVal(b[DigitPos[i]], up) < 0} IN
+  IF bad = {} THEN -1 ELSE b[DigitPos[CHOOSE i \in bad : \A j \in bad : i <= j]]
+
 UParseDemands(e, r) ==
   <<
+    <<"X.baddigit", (Len(e.in) = 36 /\ (uMax = 0 \/ 36 <= uMax)) =>
+                       e.baddigit = (IF \A q \in HyphenPos : e.in[q] = Hyphen THEN FirstBadDigit(e.in, ~Bit(e.rule, RuleDisableUpper)) ELSE -1)>>,
     <<"C18.nopanic",  ~e.panic>>,
     <<"C05.accept",   IsOk(r) => e.ok>>,
     <<"C05.value",    (IsOk(r) /\ e.ok) => e.v = r.v>>,
